@@ -136,6 +136,24 @@ impl<'a> FilterDataProvider for Provider<'a> {
     }
 }
 
+/// Mining with a bound: a mutated compact target can be practically unreachable; after `max_tries` the header is
+/// returned as it is (not a PoW solution).
+pub fn mine_header_bounded(pow: &Pow, header: HeaderView, start_nonce: u128, max_tries: u64) -> (HeaderView, u64) {
+    let engine = pow.engine();
+    let mut nonce = start_nonce;
+    let mut tries = 0u64;
+    let mut h = header;
+    while tries < max_tries {
+        h = h.as_advanced_builder().nonce(nonce.pack()).build();
+        tries += 1;
+        if engine.verify(&h.data()) {
+            break;
+        }
+        nonce = nonce.wrapping_add(1);
+    }
+    (h, tries)
+}
+
 pub fn mine_header(pow: &Pow, header: HeaderView, start_nonce: u128) -> (HeaderView, u64) {
     let engine = pow.engine();
     let mut nonce = start_nonce;
